@@ -17,7 +17,9 @@ use vmodel::{ensure, fail};
 pub mod enums;
 pub mod magic;
 pub mod partition;
+pub mod shapes;
 pub mod sugg;
+pub mod total;
 pub mod render;
 pub use render::*;
 
@@ -490,6 +492,8 @@ pub fn main(specs_json: &str, registry: Vec<Entry>) {
         "c16" | "c03-body" | "c08-forward" => magic::run(&args, &reg),
         "c08" => partition::run(&args, &reg),
         "c17" => sugg::run(&args, &reg),
+        "c18b" => shapes::run(&args, &reg),
+        "c07b" => total::run(&args, &reg),
         other => {
             eprintln!("unknown subcommand {}", other);
             std::process::exit(2);
